@@ -271,7 +271,7 @@ func caseRng(seed int64, sub string, i int) *rand.Rand {
 	return rand.New(rand.NewSource(int64(h.Sum64())))
 }
 
-var wsFrameRe = regexp.MustCompile(`github\.com/gobwas/(ws[\w/]*\.[\w\(\)\*\.]+)`)
+var wsFrameRe = regexp.MustCompile(`github\.com/gobwas/(ws[\w/]*\.(?:\(\*?\w+\)\.)?\w+)`)
 
 // panicSite extracts the innermost gobwas/ws function of a stack trace.
 func panicSite(stack string) string {
